@@ -503,6 +503,8 @@ func c17Queries(c *engine.Ctx) {
 	offenders := []c17Offender{
 		{"&", "&", 0}, {"end", "end", 0}, {"then", "then", 0}, {")", ")", 0}, {"]", "]", 0}, {"}", "}", 0}, {"catch", "catch", 0}, {`"s"`, `"s"`, 0}, {"1", "1", 0}, {"$x", "$x", 0}, {"if", "if", 0}, {`"a\(1)"`, `"`, 0}, {`"\q"`, `\q`, 0}, {`"\u12"`, "", 0},
 		{"1.2.3", "", 0}, {"あ", "あ", 0}, {"日本", "日", 0}, {"@base64x!", "", 0}, {"..a", "", 0}, {"elif", "elif", 0}, {"?//", "?//", 0}, {"%%", "", 0},
+		// bytes that are not UTF-8: the token is the byte as written, so that Offset - len(Token) is where it starts
+		{text: "\xff", token: "\xff"}, {text: "\xe3\x81", token: "\xe3"}, {text: "\xc0\xaf", token: "\xc0"}, {text: "\xed\xa0\x80", token: "\xed"}, {text: "\x80", token: "\x80"},
 		// an offending token right after (or glued to) tokens the lexer had to look ahead for
 		{text: "f::1", token: "f"}, {text: "$x::", token: "$x"}, {text: "f:: g", token: "f"}, {text: "| f::1", token: ":", rel: 3}, {text: "| f:: g", token: ":", rel: 3}, {text: "| f:1", token: ":", rel: 3},
 		{text: "| $x::1", token: ":", rel: 4}, {text: "| m::f::g", token: ":", rel: 6}, {text: "| .a?/ ]", token: "]", rel: 7}, {text: "| .a.. 1", token: "..", rel: 4}, {text: "| 1 ?/ /2", token: "/", rel: 7},
@@ -618,7 +620,7 @@ func init() {
 		ID:    "C17",
 		Level: "fault_enumeration",
 		Rule: "well-formed multi-line documents of 3 kinds (one scalar per line; nested objects with multi-byte and double-width characters; lines longer than the excerpt window) x sizes {40 B, 500 B, 4 KiB, 16 KiB-1/+0/+1, 40 KiB, thorough 70 KiB} x line terminators {LF, CRLF, CR} x 0..3 preceding valid documents (3/9/14 KB, so the 16 KiB window reset falls before, inside and after the faulty document) are corrupted by replacing ONE byte (by ? and by 0xFF) at EVERY byte for small documents and at every byte within +-70 of each multiple of 4096 and 16384, +-6 of each multiple of 512 and the first/last 80 bytes otherwise; each corrupted stream goes through 8 transports (regular file; pipe delivered whole and in chunks of 1, 7, 512, 4096, 16384, 16385), as values and again token by token under --stream (quick: an eighth of the positions, file and whole-pipe transports). " +
-			"The absolute offset of the offending byte comes from encoding/json run by the harness on the same bytes; the reported line must be its 1-based line (LF, CRLF, CR), the quoted text a piece of that line covering it, and the caret under it in terminal columns (go-runewidth). Truncations under default/--stream/-s/--slurpfile; query errors: 47 offending token kinds x 15 contexts x 4 continuations, as argument and -f file, checked for ParseError Offset/Token and the caret.",
+			"The absolute offset of the offending byte comes from encoding/json run by the harness on the same bytes; the reported line must be its 1-based line (LF, CRLF, CR), the quoted text a piece of that line covering it, and the caret under it in terminal columns (go-runewidth). Truncations under default/--stream/-s/--slurpfile; query errors: 52 offending token kinds x 15 contexts x 4 continuations, as argument and -f file, checked for ParseError Offset/Token and the caret.",
 		Assume:         []string{"encoding/json's SyntaxError.Offset on the harness's own decode of the same bytes locates the offending byte; go-runewidth gives terminal widths"},
 		Run:            c17Run,
 		Replay:         c17Replay,
